@@ -54,11 +54,12 @@ def Holds (ob : OpEntry) : LOpen → Prop
 /-- **Well-shaped trees.**  In `l o r` every operator open at the right edge of `l` gives way to
     `o`, and `o` holds every operator open at the left edge of `r`; a prefix operator holds the
     operators open at the left edge of its operand; every operator open at the right edge of the
-    operand of a postfix operator binds tighter than the postfix operator. -/
+    operand of a postfix operator binds tighter than the postfix operator.  (An `Infix` node carries an
+    operator of an infix row, a `Prefix` node one of a prefix row.) -/
 def WellShaped : OTree → Prop
   | .leaf _ => True
-  | .infix l o r => WellShaped l ∧ WellShaped r ∧ (∀ o' ∈ rightOpen l, GivesWay o' o) ∧ (∀ x ∈ leftOpen r, Holds o x)
-  | .prefix o r => WellShaped r ∧ (∀ x ∈ leftOpen r, Holds o x)
+  | .infix l o r => o.assoc ≠ 0 ∧ WellShaped l ∧ WellShaped r ∧ (∀ o' ∈ rightOpen l, GivesWay o' o) ∧ (∀ x ∈ leftOpen r, Holds o x)
+  | .prefix o r => o.assoc = 0 ∧ WellShaped r ∧ (∀ x ∈ leftOpen r, Holds o x)
   | .postfix l p _ => WellShaped l ∧ (∀ o' ∈ rightOpen l, o'.prec < p)
 
 /-! ### the stack invariant -/
@@ -102,7 +103,7 @@ theorem popOperator_spec (o : OpEntry) (ops : List OpEntry) (t : OTree) (rest : 
   by_cases ha : o.assoc ≠ 0
   · obtain ⟨l, rest', hrest, hl, hgw, hll, hto, hs'⟩ := hs.1 ha
     subst hrest
-    refine ⟨.infix l o t, rest', by simp [popOperator, ha], ⟨⟨hl, hws, hgw, ?_⟩, ?_, hs'⟩, by simp [rightOpen], ?_⟩
+    refine ⟨.infix l o t, rest', by simp [popOperator, ha], ⟨⟨ha, hl, hws, hgw, ?_⟩, ?_, hs'⟩, by simp [rightOpen], ?_⟩
     · intro x hx
       exact hlo x hx
     · intro x hx
@@ -116,7 +117,7 @@ theorem popOperator_spec (o : OpEntry) (ops : List OpEntry) (t : OTree) (rest : 
       · exact h0
       · exact absurd h0 ha
     have hs' := hs.2 ha'
-    refine ⟨.prefix o t, rest, by simp [popOperator, ha'], ⟨⟨hws, ?_⟩, ?_, hs'⟩, by simp [rightOpen], ?_⟩
+    refine ⟨.prefix o t, rest, by simp [popOperator, ha'], ⟨⟨ha', hws, ?_⟩, ?_, hs'⟩, by simp [rightOpen], ?_⟩
     · intro x hx
       exact hlo x hx
     · intro x hx
@@ -622,5 +623,212 @@ theorem tagged_of_check (P : Program) (inp : List Nat) (fuel : Nat) (pre : List 
   · intro r hr
     obtain ⟨e, p, a, h1, h2⟩ := rowTaggedB_sound _ r (h.2 r hr)
     exact ⟨e, p, a, h1, by simpa using h2⟩
+
+/-! ### uniqueness: the well-shaped tree is determined by its reading -/
+
+/-- prefix nodes carry a prefix entry, infix nodes an infix entry -/
+def TagOK : OTree → Prop
+  | .leaf _ => True
+  | .infix l o r => o.assoc ≠ 0 ∧ TagOK l ∧ TagOK r
+  | .prefix o r => o.assoc = 0 ∧ TagOK r
+  | .postfix l _ _ => TagOK l
+
+abbrev SYState := List OpEntry × List OTree
+
+/-- the stack operations that one occurrence triggers (the loop of `OperatorTable._compile` with
+    the parsing taken out) -/
+def syStep (st : SYState) : Tok → Option SYState
+  | .pre o => some (o :: st.1, st.2)
+  | .operand v => some (st.1, .leaf v :: st.2)
+  | .post p op =>
+    match reducePost p st.1 st.2 with
+    | some (ops', x :: rest) => some (ops', .postfix x p op :: rest)
+    | _ => none
+  | .inf o =>
+    match reduceInfix o.prec st.1 st.2 with
+    | some (.go ops' operands') => some (o :: ops', operands')
+    | _ => none
+
+def syRun : List Tok → SYState → Option SYState
+  | [], st => some st
+  | t :: ts, st =>
+    match syStep st t with
+    | none => none
+    | some st' => syRun ts st'
+
+/-- the tree that the stack operations build from a reading -/
+def syTree (toks : List Tok) : Option OTree :=
+  match syRun toks ([], []) with
+  | none => none
+  | some (ops, operands) =>
+    match popAll ops operands with
+    | none => none
+    | some out => out.getLast?
+
+theorem syRun_append : ∀ (a b : List Tok) (st : SYState),
+    syRun (a ++ b) st = (syRun a st).bind (syRun b) := by
+  intro a
+  induction a with
+  | nil => intro b st; rfl
+  | cons t ts ih =>
+    intro b st
+    simp only [List.cons_append, syRun]
+    cases syStep st t with
+    | none => rfl
+    | some st' => exact ih b st'
+
+/-- a tree whose right spine is still on the stacks -/
+def spine : OTree → SYState
+  | .leaf v => ([], [.leaf v])
+  | .infix l o r => ((spine r).1 ++ [o], (spine r).2 ++ [l])
+  | .prefix o r => ((spine r).1 ++ [o], (spine r).2)
+  | .postfix l p op => ([], [.postfix l p op])
+
+theorem popAll_spine : ∀ (T : OTree), TagOK T → ∀ (ops : List OpEntry) (rest : List OTree),
+    popAll ((spine T).1 ++ ops) ((spine T).2 ++ rest) = popAll ops (T :: rest) := by
+  intro T
+  induction T with
+  | leaf v => intro _ ops rest; rfl
+  | «postfix» l p op _ => intro _ ops rest; rfl
+  | «infix» l o r _ ihr =>
+    intro ht ops rest
+    obtain ⟨ha, _, hr⟩ := ht
+    simp only [spine, List.append_assoc, List.singleton_append]
+    rw [ihr hr (o :: ops) (l :: rest)]
+    simp [popAll, popOperator, ha]
+  | «prefix» o r ihr =>
+    intro ht ops rest
+    obtain ⟨ha, hr⟩ := ht
+    simp only [spine, List.append_assoc, List.singleton_append]
+    rw [ihr hr (o :: ops) rest]
+    simp [popAll, popOperator, ha]
+
+theorem reducePost_spine (p : Int) : ∀ (T : OTree), TagOK T → (∀ o' ∈ rightOpen T, o'.prec < p) →
+    ∀ (ops : List OpEntry) (rest : List OTree),
+      reducePost p ((spine T).1 ++ ops) ((spine T).2 ++ rest) = reducePost p ops (T :: rest) := by
+  intro T
+  induction T with
+  | leaf v => intro _ _ ops rest; rfl
+  | «postfix» l q op _ => intro _ _ ops rest; rfl
+  | «infix» l o r _ ihr =>
+    intro ht hro ops rest
+    obtain ⟨ha, _, hr⟩ := ht
+    simp only [spine, List.append_assoc, List.singleton_append]
+    rw [ihr hr (fun o' ho' => hro o' (by simp [rightOpen, ho'])) (o :: ops) (l :: rest)]
+    have : o.prec < p := hro o (by simp [rightOpen])
+    simp [reducePost, this, popOperator, ha]
+  | «prefix» o r ihr =>
+    intro ht hro ops rest
+    obtain ⟨ha, hr⟩ := ht
+    simp only [spine, List.append_assoc, List.singleton_append]
+    rw [ihr hr (fun o' ho' => hro o' (by simp [rightOpen, ho'])) (o :: ops) rest]
+    have : o.prec < p := hro o (by simp [rightOpen])
+    simp [reducePost, this, popOperator, ha]
+
+theorem reduceInfix_spine (x : OpEntry) : ∀ (T : OTree), TagOK T → (∀ o' ∈ rightOpen T, GivesWay o' x) →
+    ∀ (ops : List OpEntry) (rest : List OTree),
+      reduceInfix x.prec ((spine T).1 ++ ops) ((spine T).2 ++ rest) = reduceInfix x.prec ops (T :: rest) := by
+  intro T
+  induction T with
+  | leaf v => intro _ _ ops rest; rfl
+  | «postfix» l q op _ => intro _ _ ops rest; rfl
+  | «infix» l o r _ ihr =>
+    intro ht hro ops rest
+    obtain ⟨ha, _, hr⟩ := ht
+    simp only [spine, List.append_assoc, List.singleton_append]
+    rw [ihr hr (fun o' ho' => hro o' (by simp [rightOpen, ho'])) (o :: ops) (l :: rest)]
+    have hg : o.prec < x.prec ∨ (o.prec = x.prec ∧ o.assoc = 1) := hro o (by simp [rightOpen])
+    simp [reduceInfix, hg, popOperator, ha]
+  | «prefix» o r ihr =>
+    intro ht hro ops rest
+    obtain ⟨ha, hr⟩ := ht
+    simp only [spine, List.append_assoc, List.singleton_append]
+    rw [ihr hr (fun o' ho' => hro o' (by simp [rightOpen, ho'])) (o :: ops) rest]
+    have hg : o.prec < x.prec ∨ (o.prec = x.prec ∧ o.assoc = 1) := hro o (by simp [rightOpen])
+    have hlt : o.prec < x.prec := by
+      rcases hg with h1 | ⟨_, h2⟩
+      · exact h1
+      · rw [ha] at h2; exact absurd h2 (by decide)
+    simp [reduceInfix, hlt, popOperator, ha]
+
+theorem reducePost_stop (p : Int) (ops : List OpEntry) (operands : List OTree) (h : HoldsTop ops (.post p)) :
+    reducePost p ops operands = some (ops, operands) := by
+  cases ops with
+  | nil => rfl
+  | cons ob rest =>
+    have : ¬ ob.prec < p := h
+    simp [reducePost, this]
+
+theorem reduceInfix_stop (x : OpEntry) (ops : List OpEntry) (operands : List OTree) (h : HoldsTop ops (.inf x)) :
+    reduceInfix x.prec ops operands = some (.go ops operands) := by
+  cases ops with
+  | nil => rfl
+  | cons ob rest =>
+    obtain ⟨h1, h2⟩ : ¬ GivesWay ob x ∧ ¬ (ob.prec = x.prec ∧ ob.assoc = 3) := h
+    have h1' : ¬ (ob.prec < x.prec ∨ (ob.prec = x.prec ∧ ob.assoc = 1)) := h1
+    simp [reduceInfix, h1', h2]
+
+/-- reading a well-shaped tree from a state whose top holds its left-open operators leaves the
+    tree's right spine on the stacks -/
+theorem syRun_tree : ∀ (T : OTree), WellShaped T → TagOK T → ∀ (ops : List OpEntry) (operands : List OTree),
+    (∀ x ∈ leftOpen T, HoldsTop ops x) →
+    syRun T.yield (ops, operands) = some ((spine T).1 ++ ops, (spine T).2 ++ operands) := by
+  intro T
+  induction T with
+  | leaf v => intro _ _ ops operands _; rfl
+  | «prefix» o r ihr =>
+    intro hw ht ops operands _
+    obtain ⟨_, hwr, hho⟩ := hw
+    obtain ⟨_, htr⟩ := ht
+    simp only [OTree.yield, List.singleton_append, syRun, syStep]
+    rw [ihr hwr htr (o :: ops) operands hho]
+    simp [spine, List.append_assoc]
+  | «infix» l o r ihl ihr =>
+    intro hw ht ops operands hlo
+    obtain ⟨_, hwl, hwr, hgw, hho⟩ := hw
+    obtain ⟨_, htl, htr⟩ := ht
+    simp only [OTree.yield]
+    rw [syRun_append, syRun_append]
+    rw [ihl hwl htl ops operands (fun x hx => hlo x (by simp [leftOpen, hx]))]
+    simp only [Option.bind_some, syRun, syStep]
+    rw [reduceInfix_spine o l htl hgw ops operands]
+    rw [reduceInfix_stop o ops (l :: operands) (hlo (.inf o) (by simp [leftOpen]))]
+    simp only [Option.bind_some]
+    rw [ihr hwr htr (o :: ops) (l :: operands) hho]
+    simp [spine, List.append_assoc]
+  | «postfix» l p op ihl =>
+    intro hw ht ops operands hlo
+    obtain ⟨hwl, hro⟩ := hw
+    simp only [OTree.yield]
+    rw [syRun_append]
+    rw [ihl hwl ht ops operands (fun x hx => hlo x (by simp [leftOpen, hx]))]
+    simp only [Option.bind_some, syRun, syStep]
+    rw [reducePost_spine p l ht hro ops operands]
+    rw [reducePost_stop p ops (l :: operands) (hlo (.post p) (by simp [leftOpen]))]
+    simp [spine]
+
+/-- the stack operations rebuild every well-shaped tree from its reading -/
+theorem syTree_yield (T : OTree) (hw : WellShaped T) (ht : TagOK T) : syTree T.yield = some T := by
+  unfold syTree
+  rw [syRun_tree T hw ht [] [] (fun _ _ => trivial)]
+  simp only [List.append_nil]
+  have := popAll_spine T ht [] []
+  simp only [List.append_nil] at this
+  rw [this]
+  simp [popAll]
+
+theorem WellShaped.tagOK : ∀ (T : OTree), WellShaped T → TagOK T
+  | .leaf _, _ => trivial
+  | .infix l _ r, h => ⟨h.1, WellShaped.tagOK l h.2.1, WellShaped.tagOK r h.2.2.1⟩
+  | .prefix _ r, h => ⟨h.1, WellShaped.tagOK r h.2.1⟩
+  | .postfix l _ _, h => WellShaped.tagOK l h.1
+
+/-- **Uniqueness.**  Two well-shaped trees with the same reading are the same tree. -/
+theorem wellShaped_unique (t₁ t₂ : OTree) (h₁ : WellShaped t₁) (h₂ : WellShaped t₂)
+    (hy : t₁.yield = t₂.yield) : t₁ = t₂ := by
+  have e₁ := syTree_yield t₁ h₁ (WellShaped.tagOK t₁ h₁)
+  have e₂ := syTree_yield t₂ h₂ (WellShaped.tagOK t₂ h₂)
+  rw [hy, e₂] at e₁
+  exact (Option.some.inj e₁).symm
 
 end Sourcer
